@@ -53,6 +53,10 @@ def cases(tier, seed, i, n):
         for ln in range(126):
             yield dict(msgs=[dict(k='ping', p=['lit', bytes((ln * 3 + k) & 0xff for k in range(ln))])], pol='passive',
                        auto=True, seg=('coalesced', 'bytewise')[ln % 2], fault=None, close_at=None)
+        # a Ping with RSV1 set on a connection with permessage-deflate (RFC 7692 6.1 forbids it): reject it or answer
+        # it byte for byte - but never answer with something else, and never die without a ProtocolError
+        for zi in range(8):
+            yield dict(kind='zping', zi=zi, seg=('coalesced', 'bytewise')[zi % 2])
         count = 5000 if tier == 'quick' else 500000
         for idx in range(count):
             msgs = ping_heavy(rnd, idx)
@@ -136,7 +140,50 @@ def _faulting_session(fault):
     return S
 
 
+def run_zping(case, acc):
+    from ..ref import deflate_peer
+    from .. import harness as H_
+    peer = deflate_peer.Peer()
+    zi = case['zi']
+    plain = [b'abcabcabcabcabcabc', b'x' * 1000, b'', b'\xff\xfe binary', b'a' * 126, b'ping', b'z' * 125, b'hello hello'][zi]
+    wirep = peer.compress(plain)
+    if len(wirep) > 125:
+        wirep = wirep[:125]
+    F_ = refws.enc_frame
+    stream = F_(1, b'before') + F_(9, wirep, rsv=4) + F_(9, b'plain-ping') + F_(1, b'after')
+    hs = dict(extra=[('Sec-WebSocket-Extensions', 'permessage-deflate')])
+    w = H_.World(H_.hs_server([('raw', stream), ('eof',)], hs), cuts='all' if case['seg'] == 'bytewise' else None)
+    run = H_.drive(w, ws_kwargs=dict(compress=True), connect_kwargs=dict(ping_rate=0))
+    reqs, frames, residue, errors = H_.client_frames(w.conns[0])
+    names = [n for n in run.names if n != 'poll']
+    pongs = [f['payload'] for f in frames if f['opcode'] == 10]
+    pings = [e.data for e in run.events if e.name == 'ping']
+    detail = dict(events=[H_.norm(e) for e in run.events if e.name != 'poll'], pongs=pongs, wire_ping_payload=wirep, end=run.end, exc=run.exc)
+    acc.count2('oracle', 'rsv1_ping_runs')
+    key = None
+    if run.end != 'stop':
+        key = 'run-did-not-end'
+    elif 'protocol_error' in names:
+        # rejected: nothing of that ping may have been answered or delivered
+        if pongs or pings:
+            key = 'rsv1-ping-rejected-but-also-answered-or-delivered'
+        acc.count2('oracle', 'rsv1_ping_rejected')
+    else:
+        if pings[:1] != [wirep] or pongs[:1] != [wirep]:
+            key = 'pong-payload-or-order-wrong:rsv1-ping-inflated'
+        elif pings != [wirep, b'plain-ping'] or pongs != [wirep, b'plain-ping']:
+            key = 'ping-not-answered:after-rsv1-ping'
+        if names and names[-1] == 'disconnected' and 'text' not in names[names.index('ready'):][1:] and key is None:
+            key = 'ping-not-delivered-or-altered'
+    if key:
+        acc.violation(key, 'C14 %s: Ping with RSV1 on a permessage-deflate connection, payload inflates to %d bytes' % (key, len(plain)), case, detail)
+    else:
+        acc.cls('zping/%d/%s/%s' % (zi, case['seg'], 'rejected' if 'protocol_error' in names else 'echoed'))
+
+
 def run_case(case, acc):
+    if case.get('kind') == 'zping':
+        return run_zping(case, acc)
     run, w, expected = execute(case)
     if case.get('violation'):
         acc.count2('oracle', 'streams_ending_in_violation')
